@@ -224,6 +224,11 @@ def run(ctx):
     c04.rule_r3(facts, ctx)   # only timed waits (C05.R5)
     from . import c09
     c09.rule_r6(facts, ctx, rule_id="C05.R4")   # no retirement with consumed-but-uncommitted input
+    # a misdirected wait is what hangs THIS runner: the thread waits on a stream that already holds the amount, the wait
+    # returns at once, eof() (all inputs ended and drained) is false, and the loop never ends (seed s8-c05)
+    from . import c19
+    c09.rule_r3(facts, c19._Retag(ctx, "C09.R3", "C05.R8"))
+    ctx.floor("C05.R8", 40, "WaitForStream return sites with a plain short-window controlling test (same rule as C09.R3)")
     from . import c03
     c03.rule_r12(facts, ctx, rule_id="C05.R6")   # a second live window on one stream end fails depending on the peer's timing
     ctx.floor("C05.R6", 80, "read_buf()/write_buf() requests of the crate's bodies (same rule as C03.R12)")
